@@ -63,6 +63,17 @@ def mixed(year, w, ep, rent):
     return rows
 
 
+def two_adult_units(year, w, w_sib, rent, kids=1):
+    """Single parent with child(ren) plus an adult sibling / flat-mate who is a needs unit of his own: two adult-led units in one household."""
+    rows = [worker(10, 1, 36, year, w, alleinerz=True, weiblich=True, ges_pflegev_hat_kinder=True, steuerklasse=2)]
+    for j in range(kids):
+        rows.append(person(11 + j, 1, 6 + 5 * j, year, p_id_elternteil_1=10, p_id_kindergeld_empf=10, kind_unterh_anspr_m=300.0, kind_unterh_erhalt_m=0.0))
+    rows.append(worker(20, 1, 30, year, w_sib))
+    for r in rows:
+        r.update(bruttokaltmiete_m_hh=rent, wohnfläche_hh=85.0, heizkosten_m_hh=90.0)
+    return rows
+
+
 def scenarios(year, fine):
     ws = W_FINE if fine else W
     rents = [300.0, 700.0, 1200.0] if fine else [300.0, 700.0]
@@ -81,6 +92,9 @@ def scenarios(year, fine):
         yield ("pensioner", dict(ep=ep, rent=rent, wealth=wealth, priv=priv)), pensioner(year, ep, rent, wealth, priv)
     for w, ep in itertools.product(ws, [5.0, 15.0, 30.0, 45.0]):
         yield ("mixed", dict(w=w, ep=ep)), mixed(year, w, ep, 800.0)
+    sib = [0.0, 450.0, 800.0, 1000.0, 1100.0, 1250.0, 1500.0, 2200.0] if not fine else [float(x) for x in range(0, 2601, 100)]
+    for w, ws_, rent, kids in itertools.product(ws, sib, [500.0, 750.0, 1100.0], [1, 2]):
+        yield ("two-adult-units", dict(w=w, w_sibling=ws_, rent=rent, kids=kids)), two_adult_units(year, w, ws_, rent, kids)
 
 
 COLS = ["arbeitsl_geld_2_m_bg", "wohngeld_m_wthh", "kinderzuschl_m_bg", "grunds_im_alter_m_eg"]
@@ -169,11 +183,11 @@ def run(tier):
         print("harness error: the sweep does not visit all benefit regimes", sorted(regimes))
         return 2
     rep.bound = {"dates": dates, "wage_grid": W_FINE if thorough else W, "scenarios": ["fam", "fam-unmarried", "fam-retired", "single", "single-parent",
-                 "single-parent-unterhalt", "pensioner", "mixed"]}
+                 "single-parent-unterhalt", "pensioner", "mixed", "two-adult-units"]}
     rep.assumptions = ["a person 'receives' a group-level benefit if the group-level column is positive in that person's row"]
     return rep.finish(
-        "eight household scenarios (married/unmarried couple with children incl. a self-sufficient child = two needs units, retired couple, "
-        "single, single parent with/without maintenance, pensioner, three generations) x sweeps of wages, partner wage, rent, wealth, pension "
+        "nine household scenarios (married/unmarried couple with children incl. a self-sufficient child = two needs units, retired couple, "
+        "single, single parent with/without maintenance, pensioner, three generations, two adult-led needs units sharing a household) x sweeps of wages, partner wage, rent, wealth, pension "
         "points across the break-even points of the priority checks x change dates; oracle per person: no ALG II with Wohngeld/Kinderzuschlag, no "
         "Grundsicherung with any of them, Kinderzuschlag only with a priority flag, every Bedarfsgemeinschaft inside one wthh; the run must visit "
         "all regimes (checked)"
